@@ -1096,7 +1096,7 @@ func main() {
 			}
 		}
 	}
-	cases := &vh.Cases{Import: "From MV Require Import C34.Model.", Type: "case", CheckFn: "check", Shard: 120}
+	cases := &vh.Cases{Import: "From MV Require Import C34.Model.", Type: "case", CheckFn: "check", Shard: 60}
 	var scripts []*Script
 	scripts = append(scripts, corpus()...)
 	nrand := o.Pick(330, 6000)
